@@ -201,6 +201,15 @@ def run(E: Engine, rep: Report, tier: str) -> dict:
         open_block = any(x[0] == "cmp" and x[1] == "Is" and sym.NONE in (x[2], x[3]) and mentions(x, "eom_blocks") and mentions(x, "tf") for x in sym.conj_of(l.cond))
         starts_at_last_slot = mentions(p[2], "slots") and mentions(p[2], "tf") and p[2] == p[5]
         ok_t = ok_t or (open_block and starts_at_last_slot and p[3] == accs[0][1][3] and p[6] is None)
+        # ... for the targets of the slot the tail starts at (the LAST one: the channel may have been retargeted)
+        def _slot_idx(t_, attr_):
+            return {x[1][2] for x in sym.subterms(t_) if x[0] == "attr" and x[2] == attr_ and x[1][0] == "idx" and mentions(x[1][1], "slots")}
+
+        if l.loops:
+            k_tg, k_tf = _slot_idx(l.loops[-1], "targets"), _slot_idx(p[2], "tf")
+            if k_tg and k_tf:
+                rep.check(k_tg == k_tf == {("const", -1)}, "SIB", "to_nested_dict|eom-tail-on-the-last-slot's-targets", "the tail starts at slots[-1].tf and runs over slots[-1].targets",
+                          f"the off-detuning kept after the last slot starts at slots[{', '.join(sh(k) for k in sorted(k_tf))}].tf but is given to slots[{', '.join(sh(k) for k in sorted(k_tg))}].targets: after a retarget the idle detuning_off lands on the atoms targeted first instead of the current ones", E.where(tnd, l.node))
     rep.check(ok_t, "SIB", "to_nested_dict|per-target-view-keeps-eom-off-detuning-after-last-slot", "under `eom_blocks[-1].tf is None`, cs.det from the last slot's end is added for the last targets",
               "the per-target branch of to_nested_dict copies samples inside pulse slots only: the detuning_off padding that follows the last slot of a channel still in EOM mode (kept by the Global branch) never reaches the per-qubit view, so a Local EOM channel -- or any emulation that forces all_local -- sees zero detuning there", E.where(tnd))
     # the weight factor appears exactly in the per-atom branch, on the detuning, indexed by that atom
